@@ -26,7 +26,7 @@ Definition wfr (rdy : bool) (fr : frame) : nat :=
   | FSBcheck _ | FSBwoken _ => if rdy then 2 else 9
   | FSBwait _ | FSBclaim _ => 9
   | FSBsteal _ => if rdy then 7 else 8
-  | FSBstealidle _ => 6
+  | FSBstealidle _ => if rdy then 6 else 13
   | FSBdone _ => 1
   | FTS1 _ => 6
   | FRQ1 _ => 3 | FRQ2 _ => 2
